@@ -141,6 +141,8 @@ type Local struct {
 
 	eni                    *daemon.ENI
 	ipAllocInhibitExpireAt time.Time
+	// assigning is true while factoryAllocWorker has an assign call for this eni in flight (lock released)
+	assigning bool
 
 	eniType string
 
@@ -741,18 +743,24 @@ func (l *Local) factoryAllocWorker(ctx context.Context) {
 				v6Count = min(v6Count, max(l.cap-len(l.ipv6), 0))
 			}
 
+			eniMAC := l.eni.MAC
 			if v4Count > 0 {
+				// the requests this call serves may all be canceled while it is in flight: the eni must not be
+				// disposed under it, the ips it returns would be added to a slot that has no eni any more
+				l.assigning = true
 				l.cond.L.Unlock()
 
 				err := l.rateLimitv4.Wait(ctx)
 				if err != nil {
 					log.Error(err, "wait for rate limit failed")
 					l.cond.L.Lock()
+					l.assigning = false
 					continue
 				}
-				ipv4Set, err := l.factory.AssignNIPv4(eniID, v4Count, l.eni.MAC)
+				ipv4Set, err := l.factory.AssignNIPv4(eniID, v4Count, eniMAC)
 
 				l.cond.L.Lock()
+				l.assigning = false
 
 				if err != nil {
 					log.Error(err, "assign ipv4 failed", "eni", eniID)
@@ -773,17 +781,20 @@ func (l *Local) factoryAllocWorker(ctx context.Context) {
 			}
 
 			if v6Count > 0 {
+				l.assigning = true
 				l.cond.L.Unlock()
 
 				err := l.rateLimitv6.Wait(ctx)
 				if err != nil {
 					log.Error(err, "wait for rate limit failed")
 					l.cond.L.Lock()
+					l.assigning = false
 					continue
 				}
-				ipv6Set, err := l.factory.AssignNIPv6(eniID, v6Count, l.eni.MAC)
+				ipv6Set, err := l.factory.AssignNIPv6(eniID, v6Count, eniMAC)
 
 				l.cond.L.Lock()
+				l.assigning = false
 
 				if err != nil {
 					log.Error(err, "assign ipv6 failed", "eni", eniID)
@@ -1110,7 +1121,8 @@ func (l *Local) canDispose() bool {
 		return false
 	}
 	// jobs moved to danging are served by the ips just assigned, their workers have not picked them yet
-	return len(l.ipv4.InUse()) == 0 &&
+	return !l.assigning &&
+		len(l.ipv4.InUse()) == 0 &&
 		len(l.ipv6.InUse()) == 0 &&
 		l.allocatingV4.Len() == 0 &&
 		l.allocatingV6.Len() == 0 &&
